@@ -20,7 +20,7 @@ def register(PROPS):
                  'reported.  The reference model is the union of the occurrence lists of the constituents (each obtained by draining a '
                  'separately parsed copy of that constituent alone), sorted by start, an occurrence with the same UID and instant in '
                  'several constituents kept once; occurrences of different UIDs at one instant may come in either order.  After every '
-                 'prefix the stream is cloned and the clone must deliver what the original goes on to deliver.  A further driver (c02_zonemix, mode rdate) feeds RDATE lists whose values are written in different forms (UTC / three fixed-offset zones, every assignment) and requires the stream to be non-decreasing and complete.  A third driver (c03_forms) merges every subset of 2-3 (thorough 2-5) out of eight constituents whose occurrences are WRITTEN differently - all-day dates (daily and weekly), UTC date-times at 00:00:00, 12:00 and 23:59:59, local times of Europe/Berlin (across its DST switch), America/New_York and Asia/Tokyo that fall on or next to UTC midnight - by vmux in both orders and as one file, read by pops and by peek-pop pairs, each run and each reference reading in a freshly forked image: starts must be non-decreasing with an all-day occurrence starting at 00:00:00 of its day, the delivered (UID, start) multiset must be the union of what the constituents deliver alone, a peek must show what the next pop returns.  A fourth driver (c03_tworules, also registered for C07 and C16) compares an event that has two recurrence sources - 5 pairs of RRULEs that meet, interleave or are disjoint, in UTC and in four zones, at three times of day and in three seasons; an RRULE plus RDATE lists that repeat rule occurrences; RDATE lists whose members are written as dates, UTC date-times and TZID local times, every subset in every order - with the duplicate-free union of the events that carry one source each (strictly increasing), and the selection echs_instant_matches_p makes on a merged stream with the union of the selections on its constituents.  A fifth driver (c03_wide) leaves the small bound in two directions.  mode=wide: N = 1..70 (thorough 1..140) one-rule events with own UIDs and pairwise distinct instants (three daily occurrences each, order in time different from argument order) are merged by each of the four constructors of evstrm.h (echs_evstrm_mux and echs_evstrm_mux_clon through one variadic call site closed by NULL, echs_evstrm_vmux, echs_evstrm_vmux_clon; originals of the cloning constructors freed before reading) and read by pops and by peek-peek-pop: exactly the 3N arithmetically known occurrences come out, each once under its UID, in increasing order, a peek shows what the pop returns, the end stays the end.  mode=long: 44 events whose rule has 200 occurrences (or what an UNTIL admits) and whose delivered instants are not the instants the rule is stepped in - DTSTART in a zone with daylight saving (Berlin, New York, Sydney, London; daily from the first of every month of 2020 and from mid-month, every second day, weekly on two days, monthly, every 7 hours), a calendar with CALSCALE:HIJRI.IA (daily date/date-time, weekly, monthly, Gregorian-written DTSTART), plus UTC / Tokyo / all-day controls: the event read alone by pops gives list A; alone by peek-peek-pop both peeks equal the pop and the list is A; merged with a second recurring event by vmux of two files (both orders), one file (both orders) and echs_evstrm_mux, by pops and by peek-peek-pop, the occurrences under its UID are exactly A, those under the other UID exactly what that event delivers alone, nothing else, starts non-decreasing; with one additional RDATE on the same event (the two-stream mux of make_task) the stream is the duplicate-free sorted union of A and the RDATE-only reading.  A sixth driver (harness/exec/c03_cli.py) observes the merged stream where the property places it first, at `echse unroll` itself, and thereby covers what lies between the command line and the mux in echse.c (reading an input in pieces, the task table, the registry of streams handed to echs_evstrm_vmux).  mode=reg: six events - a b c d with UIDs of their own, A and B defining the UIDs of a and b again with another schedule and summary, all instants pairwise distinct; every sequence of 1..4 (thorough 1..5) of them, laid out over 1..3 calendar files in every way, is unrolled by the real binary: every occurrence of the last definition of every UID is delivered exactly once (by date arithmetic), starts are non-decreasing, nothing is delivered that no input produces.  mode=arr: a calendar of 6 events (LF and CRLF) reaches echse on stdin through a pipe in two pieces, the cut at EVERY byte position, the second piece written only after the first has been read (so the first read() returns a short count): the stream is the one the same bytes give as a regular file (argument and stdin) and the one computed by date arithmetic; the same for a 70 KiB calendar of 330 events at 226 cut positions around the buffer size of echse, around every 4 KiB multiple and on a grid.',
+                 'prefix the stream is cloned and the clone must deliver what the original goes on to deliver.  A further driver (c02_zonemix, mode rdate) feeds RDATE lists whose values are written in different forms (UTC / three fixed-offset zones, every assignment) and requires the stream to be non-decreasing and complete.  A third driver (c03_forms) merges every subset of 2-3 (thorough 2-5) out of eight constituents whose occurrences are WRITTEN differently - all-day dates (daily and weekly), UTC date-times at 00:00:00, 12:00 and 23:59:59, local times of Europe/Berlin (across its DST switch), America/New_York and Asia/Tokyo that fall on or next to UTC midnight - by vmux in both orders and as one file, read by pops and by peek-pop pairs, each run and each reference reading in a freshly forked image: starts must be non-decreasing with an all-day occurrence starting at 00:00:00 of its day, the delivered (UID, start) multiset must be the union of what the constituents deliver alone, a peek must show what the next pop returns.  A fourth driver (c03_tworules, also registered for C07 and C16) compares an event that has two recurrence sources - 5 pairs of RRULEs that meet, interleave or are disjoint, in UTC and in four zones, at three times of day and in three seasons; an RRULE plus RDATE lists that repeat rule occurrences; RDATE lists whose members are written as dates, UTC date-times and TZID local times, every subset in every order - with the duplicate-free union of the events that carry one source each (strictly increasing), and the selection echs_instant_matches_p makes on a merged stream with the union of the selections on its constituents.  A fifth driver (c03_wide) leaves the small bound in two directions.  mode=wide: N = 1..70 (thorough 1..140) one-rule events with own UIDs and pairwise distinct instants (three daily occurrences each, order in time different from argument order) are merged by each of the four constructors of evstrm.h (echs_evstrm_mux and echs_evstrm_mux_clon through one variadic call site closed by NULL, echs_evstrm_vmux, echs_evstrm_vmux_clon; originals of the cloning constructors freed before reading) and read by pops and by peek-peek-pop: exactly the 3N arithmetically known occurrences come out, each once under its UID, in increasing order, a peek shows what the pop returns, the end stays the end.  mode=long: 44 events whose rule has 200 occurrences (or what an UNTIL admits) and whose delivered instants are not the instants the rule is stepped in - DTSTART in a zone with daylight saving (Berlin, New York, Sydney, London; daily from the first of every month of 2020 and from mid-month, every second day, weekly on two days, monthly, every 7 hours), a calendar with CALSCALE:HIJRI.IA (daily date/date-time, weekly, monthly, Gregorian-written DTSTART), plus UTC / Tokyo / all-day controls: the event read alone by pops gives list A; alone by peek-peek-pop both peeks equal the pop and the list is A; merged with a second recurring event by vmux of two files (both orders), one file (both orders) and echs_evstrm_mux, by pops and by peek-peek-pop, the occurrences under its UID are exactly A, those under the other UID exactly what that event delivers alone, nothing else, starts non-decreasing; with one additional RDATE on the same event (the two-stream mux of make_task) the stream is the duplicate-free sorted union of A and the RDATE-only reading.  A sixth driver (harness/exec/c03_cli.py) observes the merged stream where the property places it first, at `echse unroll` itself, and thereby covers what lies between the command line and the mux in echse.c (reading an input in pieces, the task table, the registry of streams handed to echs_evstrm_vmux).  mode=reg: six events - a b c d with UIDs of their own, A and B defining the UIDs of a and b again with another schedule and summary, all instants pairwise distinct; every sequence of 1..4 (thorough 1..5) of them, laid out over 1..3 calendar files in every way, is unrolled by the real binary: every occurrence of the last definition of every UID is delivered exactly once (by date arithmetic), starts are non-decreasing, nothing is delivered that no input produces.  mode=arr: a calendar of 6 events (LF and CRLF) reaches echse on stdin through a pipe in two pieces, the cut at EVERY byte position, the second piece written only after the first has been read (so the first read() returns a short count): the stream is the one the same bytes give as a regular file (argument and stdin) and the one computed by date arithmetic; the same for a 70 KiB calendar of 330 events at 226 cut positions around the buffer size of echse, around every 4 KiB multiple and on a grid.  mode=files: echse reads every input, regular files included, in pieces of 65536 bytes; calendars larger than that (filler events with two occurrences each, sized to the byte, then a target event, then one more event) are built so that the line feed that ends or FOLDS one content line of the target event - its RDATE list, its RRULE with COUNT, its SUMMARY or its DTSTART - is byte 65536+d or 131072+d of the text, d = -3..+3 (d=0: the line feed is the last byte of a piece, the folding blank the first byte of the next; with CRLF d=1 parts CR from LF), the line unfolded, folded with SPACE or HTAB at a token boundary or inside a token, or folded twice; each text is unrolled as a FILE argument merged with a second small calendar, as a regular file on stdin, and through a pipe in two pieces cut behind that line feed: every occurrence computed by date arithmetic from the unfolded lines (RFC 5545 3.1) comes exactly once under its UID and summary, in order, nothing else.',
         'note': 'Not covered: all peek/pop sequences on more than 4 constituents or 3 occurrences each (c03_wide reads wide and long merges by two fixed styles only), duplicates inside one constituent (not settled by the '
                 'property text), more than 2 consecutive peeks.  Clone is used as an oracle, it is not part of the property; clone defects '
                 'are reported under clone-*/crash signatures.',
@@ -28,7 +28,7 @@ def register(PROPS):
                 'scratch on the real code; sequences are distinct by construction (configurations are ordered tuples, sequences are '
                 'enumerated once each); non-trivial = a sequence on a configuration whose reference model holds >= 2 occurrences and '
                 'whose occurrences come from >= 2 constituents (an actual merge).  states/transitions are counted on the '
-                '(configuration, occurrences delivered, pending consecutive peeks, calls past the end) graph.  c03_cli: case = evaluation = one layout run through the echse binary (sequence of events x division into files; text x cut position); non-trivial = a UID is defined again and at least two UIDs remain (reg), a cut strictly inside the text (arr).',
+                '(configuration, occurrences delivered, pending consecutive peeks, calls past the end) graph.  c03_cli: case = evaluation = one layout run through the echse binary (sequence of events x division into files; text x cut position); non-trivial = a UID is defined again and at least two UIDs remain (reg), a cut strictly inside the text (arr), every case of mode=files (the text is longer than one piece and is merged with a second file).',
         'bound': {
             'quick': 'plain family: 1-3 streams, each a strictly increasing list of 0-2 instants out of {t1<t2<t3} under UID a|b, x 6 construction '
                      'paths (vmux, mux, nest, nestr, onefile, files) = 17724 configurations; rrules family: one event with 2 RRULEs out of 7 '
@@ -37,12 +37,12 @@ def register(PROPS):
                      'ASan variant (every prefix additionally replayed and freed mid-way): plain 1-3 streams with lists <= 1 (3504 configurations), '
                      '4 streams with lists <= 1 through vmux and mux (8192), rrules with 2 rules, RDATE in {none,{t2},{t1,t2,t3}}, second event '
                      'in {none, a|b x {t2},{t1,t2,t3}} (735); c03_wide: wide N = 1..70 x 4 constructors x 2 reading styles (560 merges + 70 constituents alone), '
-                     'long 44 events x (alone peek-peek-pop + 5 merge paths x 2 styles) + 5 events with an RDATE x 2 styles = 494 readings of 199-500 occurrences, plain and ASan; c03_cli: reg = sequences of length 1..4 over 6 events x every composition into 1..3 files = 10014 runs of echse unroll; arr = 2 texts (977 and 1024 bytes) x every cut 0..len + 1 text of 77511 bytes x 226 cuts = 2229 two-piece runs + 3 x 2 regular-file readings',
+                     'long 44 events x (alone peek-peek-pop + 5 merge paths x 2 styles) + 5 events with an RDATE x 2 styles = 494 readings of 199-500 occurrences, plain and ASan; c03_cli: reg = sequences of length 1..4 over 6 events x every composition into 1..3 files = 10014 runs of echse unroll; arr = 2 texts (977 and 1024 bytes) x every cut 0..len + 1 text of 77511 bytes x 226 cuts = 2229 two-piece runs + 3 x 2 regular-file readings; files = 2 piece boundaries x 4 target lines x 6 ways of folding x {LF, CRLF} x 7 alignments = 672 texts of 64-129 KiB x 3 readings = 2016 runs',
             'thorough': 'plain family: 1-3 streams with all 8 lists x 6 paths (26208 configurations) and 4 streams with all 8 lists x 5 paths '
                         '(327680; echs_evstrm_mux is left out at 4 streams in the plain build because its heap overrun makes the run '
                         'irreproducible, it is covered under ASan); rrules family: 2-3 RRULEs (392 tuples) x 8 x 15 = 47040 configurations; same '
                         'sequences and clone oracle; ASan variant with mid-way frees: plain 1-3 streams lists <= 2 (17724), 4 streams lists <= 1 '
-                        'x 6 paths (24576), rrules with 2 rules (5880).  Run end to end: 273 million sequences.  c03_wide: wide N = 1..140 (1120 merges + 140 alone), long as in quick.  c03_cli: reg with sequences of length 1..5 (95550 runs), arr as in quick.',
+                        'x 6 paths (24576), rrules with 2 rules (5880).  Run end to end: 273 million sequences.  c03_wide: wide N = 1..140 (1120 merges + 140 alone), long as in quick.  c03_cli: reg with sequences of length 1..5 (95550 runs), arr and files as in quick.',
         },
         'drivers': [
             D('c02_zonemix', ['mode=rdate', 'maxlist=4'], ['mode=rdate', 'maxlist=5'], label='zonemix-rdate', shards=4),
@@ -73,6 +73,8 @@ def register(PROPS):
             # the tool itself: `echse unroll` on generated calendars (registry of streams, input arriving in pieces)
             D('harness/exec/c03_cli.py', ['mode=reg', 'len=4'], ['mode=reg', 'len=5'], label='echse-unroll-cli', interp='/usr/bin/python3', shards=16),
             D('harness/exec/c03_cli.py', ['mode=arr'], label='echse-unroll-stdin-pieces', interp='/usr/bin/python3', shards=16),
+            # a line end or a fold of a content line on the 64 KiB piece boundary of echse (files > 64 KiB, as arguments, on stdin, through a pipe)
+            D('harness/exec/c03_cli.py', ['mode=files'], label='echse-unroll-chunk-boundary', interp='/usr/bin/python3', shards=16),
         ],
         'assumptions': [
             'constituents are explicit lists: DTSTART equals the first listed instant and is repeated in the RDATE list, so the question '
@@ -93,5 +95,6 @@ def register(PROPS):
             'event by a later one with the same UID before muxing, which is a policy above the mux',
             'c03_cli mode=reg: a UID that is defined again: the constituents of the merged stream are the LAST definitions (echse.c put_task_slot drops the earlier task and its stream; neither README nor --help say otherwise); their occurrences are demanded, occurrences of an earlier definition are neither demanded nor reported (counter stale; 0 on the pinned tree); events whose UID is defined once are demanded in full whatever happens to other UIDs',
             'c03_cli mode=arr: the text has no backslash escapes, no line of 1 KiB or more and nothing after END:VCALENDAR (the three chunk-dependences of the parser known under C10); cutting is done by the kernel pipe, so the bound is two pieces; the 70 KiB text is additionally cut by echse at its own 64 KiB buffer.  Whether echse goes on reading after the last event has been delivered in full is not judged',
+            'c03_cli mode=files: same three exclusions as mode=arr (no backslash, every line shorter than 1000 bytes, nothing after END:VCALENDAR; asserted on every generated text).  A line break followed by one SPACE or HTAB is no line break (RFC 5545 3.1, which the README names as the input format), wherever the producer puts it - also behind the colon, inside a date, a word or a keyword; the reference is computed from the unfolded lines.  The piece size 65536 is read off echse.c (_inject_fd); were it changed, the alignments would no longer meet a boundary of the files and only the pipe readings (which cut behind the line feed themselves) would keep their force',
         ],
     }
